@@ -20,8 +20,30 @@ def invariants(prefixes):
 def sig_detail(name, scen_events, at):
     """extra words for the signature of a violation found on a cluster trace (known findings are matched on it)"""
     if name == "C15_NoLasso":
-        acts = sorted({e.get("mdact", "") or e.get("act", "") for e in scen_events if e.get("ev") == "Evict" and e.get("ok") == 1})
-        return "evictions=" + "+".join(acts)
+        sc = scen_events[0]
+        ev = [e for e in scen_events if e.get("ev") == "Evict" and e.get("ok") == 1]
+        acts = sorted({e.get("mdact", "") or e.get("act", "") for e in ev})
+        # moved: a victim is re-nominated by the statement that evicts it (the nomination is not persisted)
+        moved = 0
+        cyc = 0
+        piped = set()
+        evicted = set()
+        for e in scen_events:
+            if e.get("ev") == "CycleStart":
+                cyc += 1
+            if e.get("ev") == "Evict" and e.get("ok") == 1:
+                evicted.add((cyc, e.get("stmt"), e["p"]))
+            if e.get("ev") == "Pipeline":
+                piped.add((cyc, e.get("stmt"), e["p"]))
+        if evicted & piped:
+            moved = 1
+        # gang: a victim's or a claimant's job has several pods (gang, elastic, pod sets)
+        size = {}
+        for p in sc["pods"]:
+            size[p["job"]] = size.get(p["job"], 0) + 1
+        jobs = {sc["pods"][e["p"] - 1]["job"] for e in ev} | {e["pre"] for e in ev if e.get("pre")}
+        gang = 1 if any(size.get(j, 0) > 1 for j in jobs) else 0
+        return "evictions=%s moved=%d gang=%d" % ("+".join(acts), moved, gang)
     return ""
 
 
